@@ -20,8 +20,10 @@ DEFAULTS = {0x09: [0], 0x0A: [0], 0x18: [0], 0x1A: [0], 0x39: [0], 0x42: [1], 0x
 
 
 class PropDevice:
-    def __init__(self, model, profile, lose=()):
+    def __init__(self, model, profile, lose=(), ext=None):
         self.m = model
+        self.ext = dict(ext or {})   # {index of the property QUERY (0 = first): [(id, value bytes)]}: changed on the appliance by
+        self.ngets = 0               # someone else (remote control, the unit itself) just before that query is answered
         self.lose = set(lose)   # indices (0 = first) of the property WRITES whose acknowledgement is lost on the way back
         self.nsets = 0
         self.caps = PROFILES[profile]
@@ -44,6 +46,10 @@ class PropDevice:
         elif body[0] in (0x40, 0x41):
             out = [A.mk_frame(A.state_body(None, n=24))]
         elif body[0] in (0xB0, 0xB1):
+            if body[0] == 0xB1:
+                for k, v in self.ext.get(self.ngets, []):
+                    self.store = [(i, list(v) if i == k else x) for i, x in self.store]
+                self.ngets += 1
             st, outs = self.m.call(F_STEP, [body] + [x for k, v in self.store for x in ([k], v)])
             ok, resp = outs[0][0], outs[1]
             rest = outs[2:]
